@@ -82,6 +82,15 @@ m('C05', 'lp_solver', "gamma_exp -= pair.beta_var", "pass", 'gamma without beta'
 m('C14', 'lp_solver', "            if not LpStatus[self.prob.status] == self.model.OPTIMAL_PULP_STATUS:\n                return None\n\n    \n    def optimisation_maxsize", "            if LpStatus[self.prob.status] == self.model.OPTIMAL_PULP_STATUS:\n                return None\n\n    \n    def optimisation_maxsize", 'early exit inverted')
 m('C14', 'model', "if self.pulp_status == self.NOTSOLVED_PULP_STATUS or total_s > self.time_limit: ", "if self.pulp_status == self.NOTSOLVED_PULP_STATUS and total_s > self.time_limit: ", 'Timeout test or -> and')
 m('C14', 'model', "        if not self.pulp_status == self.OPTIMAL_PULP_STATUS: \n            return results", "        if self.pulp_status == self.NOTSOLVED_PULP_STATUS: \n            return results", 'matching shown for Infeasible')
+# ---- Solver glue / variable creation (C01, C02, C14, C18)
+m('C01', 'model', "self.lp_var = LpVariable(var_name, cat='Binary')", "self.lp_var = LpVariable(var_name, cat='Integer')", 'decision variable without the 0/1 domain')
+m('C01', 'lp_solver', "        self.model.pulp_setup(\n            self.prob, \n            self.instance_options, \n            self.extra_constraints, \n            self.optimisation_options)", "        pass", 'no variables created')
+m('C02', 'model', "var_name_beta = ('b' + var_name)", "var_name_beta = ('a' + var_name)", 'alpha and beta share a name')
+m('C02', 'model', "                        Optimisation_options.LOADSUMBAL,\n                        Optimisation_options.MINCOSTLSB]:", "                        Optimisation_options.LOADSUMBAL]:", 'mincostlsb without the load-balancing variables')
+m('C02', 'model', "                    lowBound = 0, \n                    upBound = lec_upper_quota, ", "                    lowBound = 0, \n                    upBound = lec_upper_quota - 1, ", 'deviation variable bound too small')
+m('C14', 'solver', "            self.model.pulp_status = pulp_status", "            self.model.pulp_status = 'Optimal'", 'stored status is not the status of the run')
+m('C14', 'solver', "self.model.time_limit = timeLimit", "self.model.time_limit = None", 'time limit not stored')
+m('C18', 'lp_solver', '        self.prob = LpProblem("Student-Project-Allocator", LpMaximize)\n', '        self.prob = getattr(self.model, "prob", None) or LpProblem("Student-Project-Allocator", LpMaximize)\n        self.model.prob = self.prob\n', 'the problem object is reused by a second solve')
 # ---- C18
 m('C18', 'model', "        results += self.info_string + '\\n'", "        results += self.info_string + '\\n'\n        self.info_string = self.info_string + ' '", 'getter appends to a field')
 m('C18', 'model', "        max_rank = self._get_max_rank()\n        rank_allocations = [0] * max_rank", "        max_rank = self._get_max_rank()\n        self.cached_max_rank = max_rank\n        rank_allocations = [0] * max_rank", 'getter caches into a new field')
